@@ -54,6 +54,9 @@ func main() {
 	defer model.Close()
 	ctx := core.NewCtx(*root, prop, *tier, core.SeedFromEnv(), model)
 
+	if sc.Prepare != nil {
+		sc.Prepare(ctx)
+	}
 	var pr *core.ProofResult
 	if !*noProofs {
 		pr = core.CheckProofs(*root, prop, *tier == "thorough")
